@@ -15,6 +15,7 @@ import (
 	"verifharness/internal/driver"
 	"verifharness/internal/quiesce"
 	"verifharness/internal/rec"
+	"verifharness/internal/run"
 	"verifharness/internal/sched"
 	"verifharness/internal/src"
 )
@@ -251,14 +252,9 @@ func runEntry(e *catalog.Entry, sc src.Script, drive string, hit func(o *outcome
 			}
 		}
 	}
-	if o.asyncish {
-		deadline := time.Now().Add(2 * time.Second)
-		for o.r.Terminal() == rec.Next && time.Now().Before(deadline) {
-			if _, ok := quiesce.Settle(3 * time.Millisecond); ok && time.Now().After(deadline.Add(-2*time.Second+20*time.Millisecond)) {
-				break
-			}
-			time.Sleep(300 * time.Microsecond)
-		}
+	if e.Flags.Has(catalog.Async) || e.Flags.Has(catalog.HandOff) || e.Flags.Has(catalog.TimeDriven) {
+		// really asynchronous delivery: wait for the terminal (all C07 scripts end with one)
+		run.WaitEvents(o.r, -1, 3*time.Second, 10*time.Second)
 	}
 	o.beforeFollowUp = o.r.Trace()
 	// follow-up: a further notification must return (no lock left held) and must not be delivered after an Error
@@ -449,7 +445,7 @@ func runSubFn(c driver.Case) driver.Result {
 	what := fmt.Sprintf("%s over a source whose subscribe function panics (%s) after playing [%s]", e.Name, fault, played)
 	// operators that re-subscribe or substitute on error legitimately transform the failure
 	switch e.Family {
-	case "Catch", "OnErrorReturn", "OnErrorResumeNextWith", "RetryWithConfig", "Materialize", "Iif(false)":
+	case "Catch", "OnErrorReturn", "OnErrorResumeNextWith", "RetryWithConfig", "Materialize", "Iif(false)", "ToChannel":
 		res.Events, res.Nontrivial = int64(o.r.Len())+1, true
 		res.Sig = e.Name + "|subfn→" + o.r.TraceString()
 		if o.escaped != nil {
